@@ -10,6 +10,7 @@ import (
 	"flag"
 	"fmt"
 	"os"
+	"strings"
 	"time"
 
 	"verif/mon/internal/ev"
@@ -107,7 +108,11 @@ func replayCmd(args []string) {
 	}
 	c := newCtx(r.Property, r.Tier, uint64(r.Seed), 0, 1)
 	c.Replay = true
-	m.replay(c, r.Rule, r.Case)
+	if strings.HasSuffix(r.Rule, ".fatal") || strings.HasSuffix(r.Rule, ".memcap") {
+		replayCrash(c, r.Case)
+	} else {
+		m.replay(c, r.Rule, r.Case)
+	}
 	if c.nViol > 0 {
 		fmt.Printf("VIOLATION property=%s replay=%s\n", r.Property, *file)
 		os.Exit(1)
